@@ -337,3 +337,40 @@ def own_exprs(node):
     if node.kind == 'except':
         return []
     return [s] if s is not None else []
+
+
+# ------------------------------------------------------------------------------------------------
+# generic forward dataflow over a CFG (may-analysis: states are dict var -> set of tags, joined by union)
+# ------------------------------------------------------------------------------------------------
+def forward(cfg, init, transfer, refine=None, start=None):
+    """returns in-state per node id.  transfer(node, state) -> state after the node;
+    refine(node, label, state) -> state along the edge with that label (or None to kill the edge)."""
+    start = start if start is not None else cfg.entry.id
+    ins = {start: {k: set(v) for k, v in init.items()}}
+    work = [start]
+    while work:
+        a = work.pop()
+        st = ins[a]
+        out = transfer(cfg.nodes[a], {k: set(v) for k, v in st.items()})
+        for b, lab in cfg.succ[a]:
+            o = out
+            if refine is not None:
+                o = refine(cfg.nodes[a], lab, {k: set(v) for k, v in out.items()})
+                if o is None:
+                    continue
+            cur = ins.get(b)
+            if cur is None:
+                ins[b] = {k: set(v) for k, v in o.items()}
+                work.append(b)
+            else:
+                changed = False
+                for k, v in o.items():
+                    if k not in cur:
+                        cur[k] = set(v)
+                        changed = True
+                    elif not v <= cur[k]:
+                        cur[k] |= v
+                        changed = True
+                if changed:
+                    work.append(b)
+    return ins
